@@ -332,30 +332,36 @@ func Run(r *core.Run) {
 	// that a commitment or reveal value computed from it afterwards is the one computed before
 	for _, t := range types {
 		for ni, nonce := range []string{"", "AQIDBAUGBwgJCgsMDQ4PEA"} {
-			t, nonce := t, nonce
-			k := keys.New(t, 5).WithNonce(nonce)
-			id := fmt.Sprintf("jwk-value-unchanged-by-reading/%s/nonce%d", t, ni)
-			r.Case(id, func() *core.Fail {
-				j := k.JWK()
-				before, _ := json.Marshal(j)
-				c0, _ := commitment.GetCommitment(j, 18)
-				msg := []byte("header.payload")
-				compact := k.SignCompact(k.Header(), []byte(`{"p":1}`))
-				sig, _ := enc.DecodeString(strings.Split(compact, ".")[2])
-				_ = jwsutil.VerifySignature(j, sig, msg)
-				_, _ = jwsutil.VerifyJWS(compact, j)
-				_, _ = jwsutil.GetED25519PublicKey(j)
-				_ = j.Validate()
-				_, _ = commitment.GetRevealValue(j, 19)
-				after, _ := json.Marshal(j)
-				c1, _ := commitment.GetCommitment(j, 18)
-				if string(before) != string(after) || c0 != c1 || c0 != ops.Commitment(k, 18) {
-					return &core.Fail{Key: "jwk-value-changed-by-reading/" + t, What: fmt.Sprintf("a JWK value was changed by reading / verifying with it: %s became %s (commitment %s -> %s)", before, after, c0, c1), Detail: map[string]any{"before": string(before), "after": string(after)}}
-				}
-				return nil
-			})
-			r.Observe(id)
-			r.Class("jwk-value-unchanged")
+			// extra: the value also carries the members of another key type (n, e beside an EC / OKP key) - members like any other
+			for _, extra := range []bool{false, true} {
+				t, nonce, extra := t, nonce, extra
+				k := keys.New(t, 5).WithNonce(nonce)
+				id := fmt.Sprintf("jwk-value-unchanged-by-reading/%s/nonce%d/extra-%v", t, ni, extra)
+				r.Case(id, func() *core.Fail {
+					j := k.JWK()
+					if extra {
+						j.N, j.E = "sXchDaQebHnPiGvyDOAT4saGEUetSyo9MKLOoWFsueri23bOdgWp4Dy1WlUzewbgBHod5pcM9H95GQRV3JDXboIRROSBigeC5yjU1hGzHHyXss8UDprecbAYxknTcQkhslANGRUZmdTOQ5qTRsLAt6BTYuyvVRdhS8exSZEy_c4gs_7svlJJQ4H9_NxsiIoLwAEk7-Q3UXERGYw_75IDrGA84-lJ_-Cdk", "AQAB"
+					}
+					before, _ := json.Marshal(j)
+					c0, _ := commitment.GetCommitment(j, 18)
+					msg := []byte("header.payload")
+					compact := k.SignCompact(k.Header(), []byte(`{"p":1}`))
+					sig, _ := enc.DecodeString(strings.Split(compact, ".")[2])
+					_ = jwsutil.VerifySignature(j, sig, msg)
+					_, _ = jwsutil.VerifyJWS(compact, j)
+					_, _ = jwsutil.GetED25519PublicKey(j)
+					_ = j.Validate()
+					_, _ = commitment.GetRevealValue(j, 19)
+					after, _ := json.Marshal(j)
+					c1, _ := commitment.GetCommitment(j, 18)
+					if string(before) != string(after) || c0 != c1 || (!extra && c0 != ops.Commitment(k, 18)) {
+						return &core.Fail{Key: "jwk-value-changed-by-reading/" + t, What: fmt.Sprintf("a JWK value was changed by reading / verifying with it: %s became %s (commitment %s -> %s)", before, after, c0, c1), Detail: map[string]any{"before": string(before), "after": string(after)}}
+					}
+					return nil
+				})
+				r.Observe(id)
+				r.Class("jwk-value-unchanged")
+			}
 		}
 	}
 	// one JWK value used for several decodes (a variable declared outside a loop over keys): after every decode the value must be
